@@ -117,6 +117,8 @@ class Unit:
         Returns: Tuple of value, numerator, denominator. (0.01, 'mol', 'L')
 
         """
+        if not concentration:
+            raise ValueError("Concentration must be of the form '1 umol/mL'.")  # ('' has no last character to look at)
         if '/' not in concentration:
             if concentration[-1] == 'm':
                 concentration = concentration[:-1] + 'mol/kg'
@@ -1188,6 +1190,8 @@ class Container:
             solute = list(solute)
             if any(not isinstance(substance, Substance) for substance in solute):
                 raise TypeError("Solute(s) must be a Substance.")
+        if not solute:
+            raise ValueError("Solution is impossible to create. (No solute is given.)")
         if len(set(solute)) != len(solute):
             # each entry would get its own amount and the amounts would be added up under one name
             raise ValueError("Solution is impossible to create. (A solute is listed more than once.)")
